@@ -197,7 +197,27 @@ impl<'a, RO: Resolve, RN: Resolve> Walk<'a, RO, RN> {
             }
             (Primitive::Dictionary(od), Primitive::Dictionary(nd)) => self.cmp_dict(od, nd, depth, false),
             (Primitive::Stream(os), Primitive::Stream(ns)) => {
-                self.cmp_dict(&os.info, &ns.info, depth, true);
+                // A tiling pattern is a content stream with its own /Resources. The importer rebuilds that dictionary from
+                // the names the pattern's operations use (as it does for a page), so the statement's rule for pages applies:
+                // every name the operations use must have an equal counterpart; entries nothing uses may be dropped.
+                let tiling = matches!(os.info.get("PatternType").map(|p| match p { Primitive::Reference(r) => self.old.resolve(*r).unwrap_or(Primitive::Null), p => p.clone() }), Some(Primitive::Integer(1)));
+                let old_ops = if tiling { os.raw_data(self.old).ok().and_then(|d| pdf::content::parse_ops(&d, self.old).ok()) } else { None };
+                if let Some(ops) = &old_ops {
+                    let mut oi = os.info.clone(); let mut ni = ns.info.clone();
+                    let ores = oi.remove("Resources").and_then(|p| as_dict(self.old, &p));
+                    let nres = ni.remove("Resources").and_then(|p| as_dict(self.new, &p));
+                    self.cmp_dict(&oi, &ni, depth, true);
+                    self.count("tiling_pattern_resources_compared_by_use");
+                    for (cat, name) in crate::props::c20::used_resources(ops) {
+                        match (resource_entry(self.old, &ores, cat, &name), resource_entry(self.new, &nres, cat, &name)) {
+                            (None, _) => self.count("pattern_source_lacks_used_name"),
+                            (Some(o), None) => { self.path.push("Resources".into()); self.path.push(cat.to_string()); self.differs("missing", format!("the pattern's operations use /{} of /{}; the source defines it ({}), the copy does not", name, cat, brief(&o))); self.path.pop(); self.path.pop(); }
+                            (Some(o), Some(n)) => { self.path.push("Resources".into()); self.path.push(cat.to_string()); self.cmp(&o, &n, depth + 1); self.path.pop(); self.path.pop(); }
+                        }
+                    }
+                } else {
+                    self.cmp_dict(&os.info, &ns.info, depth, true);
+                }
                 self.cmp_filters(&os.info, &ns.info, depth);
                 self.count("streams_compared");
                 match (os.raw_data(self.old), ns.raw_data(self.new)) {
